@@ -20,6 +20,11 @@ from .ctx import Ctx
 from .ty import BOOL, DSET, INT, MAP, NONE, OBJ, OPT, SET, STR, SV, T, TUP, U, parse_type
 
 
+def parse_spec(text: str):
+    """Spec clause text -> expression AST (multi-line texts are allowed)."""
+    return ast.parse('(' + text.strip() + ')', mode='eval').body
+
+
 class Unsupported(Exception):
     """The function text left the translated fragment (DESIGN 2.9): undecided, never a violation."""
 
@@ -42,7 +47,7 @@ class State:
         s = State([dict(f) for f in self.frames], dict(self.heap), list(self.pc), self.old)
         s.frame_locals = list(self.frame_locals)
         s.ghost_log = list(self.ghost_log)
-        for k in ('trail', 'current_exc', 'ki', 'ki_points', 'ki_exc', 'done_stack'):
+        for k in ('trail', 'current_exc', 'ki', 'ki_points', 'ki_exc', 'done_stack', 'fault_trail'):
             if hasattr(self, k):
                 setattr(s, k, getattr(self, k))
         return s
@@ -140,10 +145,13 @@ class Engine:
             s.add(a)
         return s
 
-    def check_valid(self, st: State, goal):
+    def check_valid(self, st: State, goal, timeout_ms=None):
         """returns (status, model_text). status in discharged / refuted / open"""
         t0 = time.time()
         s = self._solver()
+        if timeout_ms is not None:
+            s.set('timeout', timeout_ms)
+            s.set('smt.mbqi', False)
         for a in st.pc:
             s.add(a)
         s.add(z3.Not(goal))
@@ -174,13 +182,20 @@ class Engine:
         t0 = time.time()
         s = self._solver()
         s.set('timeout', 2000 if self.ctx.finite else 500)
+        s.set('smt.mbqi', False)          # `unknown` (treated as feasible) is returned as soon as E-matching saturates
         for a in st.pc:
             s.add(a)
         if cond is not None:
             s.add(cond)
         r = s.check()
-        self.solver_time += time.time() - t0
+        dt = time.time() - t0
+        self.solver_time += dt
         self.queries += 1
+        if dt > 0.4 and os.environ.get('PYVC_TRACE'):
+            print(f'[slow feasibility {dt:.1f}s {r} finite={self.ctx.finite} trial={self.trial}]', file=sys.stderr)
+            if os.environ.get('PYVC_DUMP'):
+                self._dumpf = getattr(self, '_dumpf', 0) + 1
+                open(os.path.join(os.environ['PYVC_DUMP'], f'feas{self._dumpf}.smt2'), 'w').write('(set-logic ALL)\n' + s.to_smt2())
         return r != z3.unsat
 
     def model_text(self, m):
@@ -213,6 +228,10 @@ class Engine:
                             line=line, detail=detail)
             self.obligations[full] = ob
         ob.instances += 1
+        if ob.status != 'discharged':
+            # already not discharged on another path: deciding more instances cannot change the verdict
+            st.assume(goal)
+            return False
         t0 = time.time()
         status, model = self.check_valid(st, goal)
         ob.time_s += time.time() - t0
@@ -360,7 +379,17 @@ class Engine:
                 for d in self.class_chain(decl):
                     if name in d.pure:
                         return self.eval_spec_in(st, d.pure[name], {'self': base}, heap=heap)
+                for d in self.class_chain(decl):
+                    if any(p.startswith(name + '.') for p in d.pure):
+                        return SV(T('objns', (t,), name), base.z)
             raise Unsupported(f'attribute {path} not declared')
+        if t.k == 'objns':
+            full = f'{t.name}.{name}'
+            decl = self.R.find_class_by_name(t.args[0].name)
+            for d in self.class_chain(decl):
+                if full in d.pure:
+                    return self.eval_spec_in(st, d.pure[full], {'self': SV(t.args[0], base.z)}, heap=heap)
+            raise Unsupported(f'attribute {full} on {t.args[0]}')
         if t.k == 'u':
             rec = self.record_of(t)
             if rec is not None:
@@ -484,7 +513,7 @@ class Engine:
     # ---------------------------------------------------------------- spec evaluation helpers
     def eval_spec_in(self, st: State, text: str, binds: dict, heap=None, old=None) -> SV:
         """Evaluate a spec expression with `binds` as the only local names."""
-        node = ast.parse(text.strip(), mode='eval').body
+        node = parse_spec(text)
         sub = State([dict(binds)], st.heap if heap is None else heap, st.pc, st.old if old is None else old)
         ev = Evaluator(self, sub, spec=True)
         v = ev.ev(node)
@@ -519,6 +548,17 @@ class Evaluator:
 
     # -- entry
     def ev(self, n, hint: T | None = None) -> SV:
+        ot = getattr(self.eng.cur, 'opaque_tests', None) if not self.spec else None
+        if ot:
+            try:
+                txt = ast.unparse(n)
+            except Exception:
+                txt = None
+            if txt in ot:
+                # a string test whose text is not modelled character by character: it stands for a declared spec predicate
+                self.eng.trusted_uses[f'opaque test in {self.eng.cur_fkey}: `{txt}` read as {ot[txt]}'] = 1
+                binds = {k: v for f in self.st.frames for k, v in f.items()}
+                return self.eng.eval_spec_in(self.st, ot[txt], binds, heap=self.heap)
         m = getattr(self, 'ev_' + type(n).__name__, None)
         if m is None:
             raise Unsupported(f'expression {type(n).__name__}: {ast.unparse(n)[:60]}')
@@ -574,6 +614,8 @@ class Evaluator:
             return SV(T('exccls', (), nm), nm)
         if nm in self.R.global_objects:
             return SV(OBJ(self.R.global_objects[nm]), f'@{nm}')
+        if nm in getattr(self.R, 'const_exprs', {}):
+            return self.eng.eval_spec_in(self.st, self.R.const_exprs[nm], {}, heap=self.heap)
         if nm in self.R.const_names:
             t = U(self.R.const_names[nm])
             return SV(t, z3.Const(f'const_{nm}', self.ctx.sort(t)))
@@ -621,7 +663,45 @@ class Evaluator:
                 kt, vt = self.hint.args
                 return self.empty_map(kt, vt)
             return SV(T('emptycoll', (), 'dict'), None)
+        if all(isinstance(k, ast.Constant) and isinstance(k.value, str) for k in n.keys):
+            keys = [k.value for k in n.keys]
+            for sort, fields in self.R.json_records.items():
+                if set(keys) <= set(fields):
+                    return self.json_literal(sort, fields, dict(zip(keys, n.values)))
         raise Unsupported('dict literal')
+
+    def json_literal(self, sort, fields, given):
+        dti = self.ctx.dt_info
+        args = []
+        for k, ts in fields.items():
+            t = parse_type(ts)
+            has = k in given
+            args.append(z3.BoolVal(has))
+            if has:
+                v = self.ev(given[k], t)
+                v = self.eng.coerce(v, t)
+            else:
+                v = SV(t, self.ctx.fresh(t, 'absent_' + k))
+            if t.k == 'opt':
+                args.append(v.z['none'])
+                args.append(v.z['v'])
+            else:
+                args.append(v.z)
+        return SV(U(sort), dti[f'Mk{sort}'][2](*args))
+
+    def json_field(self, doc: SV, key: str):
+        """(present, value SV) of a constant key of a JSON object record."""
+        fields = self.R.json_records[doc.t.name]
+        if key not in fields:
+            raise Unsupported(f'key {key!r} is not in the vocabulary of {doc.t.name}')
+        dti = self.ctx.dt_info
+        t = parse_type(fields[key])
+        kk = key.replace('-', '_')
+        has = dti[f'{doc.t.name}_has_{kk}'][2](doc.z)
+        val = dti[f'{doc.t.name}_val_{kk}'][2](doc.z)
+        if t.k == 'opt':
+            return has, SV(t, {'none': dti[f'{doc.t.name}_null_{kk}'][2](doc.z), 'v': val})
+        return has, SV(t, val)
 
     def empty_map(self, kt, vt):
         return SV(MAP(kt, vt), {'dom': self.ctx.empty_set(kt), 'val': self.ctx.fresh_lifted(kt, vt, 'emptymap')})
@@ -665,6 +745,10 @@ class Evaluator:
                 i = n.slice.value
                 return SV(t.args[i], base.z[i])
             raise Unsupported('tuple index must be constant')
+        if t.k == 'u' and t.name in self.R.json_records and isinstance(n.slice, ast.Constant) and isinstance(n.slice.value, str):
+            has, val = self.json_field(base, n.slice.value)
+            self.may_raise.append((has, 'KeyError', ast.unparse(n)))
+            return val
         key = self.ev(n.slice)
         if t.k == 'map':
             k = self.eng.coerce(key, t.args[0])
@@ -833,6 +917,8 @@ class Evaluator:
         raise Unsupported(f'compare {on} on {a.t}, {b.t}')
 
     def member(self, x: SV, coll: SV):
+        if coll.t.k == 'u' and coll.t.name in self.R.json_records and x.t.k == 'str' and z3.is_string_value(x.z):
+            return self.json_field(coll, x.z.as_string())[0]
         if coll.t.k == 'opt' and coll.t.args[0].k in ('set', 'list'):
             self.may_raise.append((z3.Not(coll.z['none']), 'TypeError', 'membership test on None'))
             coll = SV(coll.t.args[0], coll.z['v'])
@@ -1274,7 +1360,7 @@ class CallEval:
         if self.ctx.finite or getattr(self.eng, 'inline_deffuncs', False):
             sub = State([dict(zip(d['params'], args))], self.e.heap, self.e.st.pc, self.e.st.old)
             e = Evaluator(self.eng, sub, spec=True, heap=self.e.heap)
-            v = e.ev(ast.parse(d['body'].strip(), mode='eval').body)
+            v = e.ev(parse_spec(d['body']))
             return SV(rt, v.z) if v.t.k in ('set', 'list') and rt.k in ('set', 'list') else v
         return self.eng.apply_func(nm, args, rt, pts)
 
@@ -1394,7 +1480,7 @@ class CallEval:
                 if True:  # assumed regardless of the property slice
                     sub = State([{'self': obj}], self.e.heap, self.e.st.pc, self.e.st.old)
                     e = Evaluator(self.eng, sub, spec=True, heap=self.e.heap)
-                    conj.append(self.eng.truth(e.ev(ast.parse(cl.expr.strip(), mode='eval').body)))
+                    conj.append(self.eng.truth(e.ev(parse_spec(cl.expr))))
         return SV(BOOL, z3.And(conj) if conj else z3.BoolVal(True))
 
     def view(self, nm, n):
@@ -1404,7 +1490,7 @@ class CallEval:
             if nm in d.views:
                 sub = State([{'self': obj}], self.e.heap, self.e.st.pc, self.e.st.old)
                 e = Evaluator(self.eng, sub, spec=True, heap=self.e.heap)
-                return e.ev(ast.parse(d.views[nm].strip(), mode='eval').body)
+                return e.ev(parse_spec(d.views[nm]))
         raise SpecError(f'view {nm} not defined for {obj.t}')
 
     def macro(self, nm, n):
@@ -1414,7 +1500,7 @@ class CallEval:
             raise SpecError(f'macro {nm} arity')
         sub = State([dict(zip(params, args))], self.e.heap, self.e.st.pc, self.e.st.old)
         e = Evaluator(self.eng, sub, spec=True, heap=self.e.heap)
-        return e.ev(ast.parse(text.strip(), mode='eval').body)
+        return e.ev(parse_spec(text))
 
     def dtop(self, nm, n):
         kind, dtname, fn, info = self.ctx.dt_info[nm]
@@ -1600,6 +1686,10 @@ class CallEval:
             if c is not None and c.pure:
                 return self.pure_contract(c, None, n)
             raise Unsupported(f'call {dotted}() inside an expression')
+        if recv.t.k == 'opt' and recv.t.args[0].k == 'u':
+            # method call on an Optional: fine where the code has tested it against None (proved from the path condition)
+            self.e.may_raise.append((z3.Not(recv.z['none']), 'AttributeError', f'{dotted}() on None'))
+            recv = SV(recv.t.args[0], recv.z['v'])
         t = recv.t
         m = f.attr
         if t.k == 'map':
@@ -1634,6 +1724,11 @@ class CallEval:
                 raise Unsupported('defaultdict.get without default')
             if m == 'items':
                 return SV(T('dsetitems'), recv)
+        if t.k == 'u' and t.name in self.R.json_records and m == 'get' and n.args and isinstance(n.args[0], ast.Constant):
+            has, val = self.e.json_field(recv, n.args[0].value)
+            if val.t.k == 'opt':
+                return SV(val.t, {'none': z3.Or(z3.Not(has), val.z['none']), 'v': val.z['v']})
+            return SV(OPT(val.t), {'none': z3.Not(has), 'v': val.z})
         if t.k == 'str':
             if m == 'startswith':
                 a = self.e.ev(n.args[0])
